@@ -145,6 +145,19 @@ CLAIMED = {
         "exercised; det_id ids are distinct.",
    technique="PlusCal/TLA+ model of the marking protocol checked by TLC + TLC trace validation of repeated real runs (equality of outcomes across runs)",
    engine="mc+ctl+free+tv", design_ref="6/C07"),
+ "C10": dict(
+   category="model_checking",
+   text="MorphAbs.tla is the serial graph abstract data type (live nodes + one edge multiset; out-, in- and symmetric views are derived "
+        "from it, so reverse entries exist together and share data, no edge reaches a removed node, every live node/edge is yielded "
+        "once). Sequential histories on five flavours (directed, in/out, undirected, sorted neighbours, no-lockable) are dumped through "
+        "the public API after every operation; mutation programs (add/remove node, add edge with duplicate check, multi-edge, remove, "
+        "find, data updates over overlapping node sets) run inside the real for_each with default conflict flags under controlled "
+        "schedules (2 topologies), jitter and free; the operator logs each mutator while it still owns what it touched; TLC replays "
+        "the commit log on MorphAbs and compares every result and the structural dumps (Serialisable).",
+   note="Trusted: TLC, the dump code in harness/src/morph.cpp. Parallel edges carry one constant datum; removed nodes are not re-added. Known findings: "
+        "self loops on undirected and in/out graphs (D13).",
+   technique="TLA+ abstract graph ADT + TLC trace validation (acceptance by reaching the end of each execution) of sequential and concurrent real executions",
+   engine="seqreplay+ctl+free+tv", design_ref="6/C10"),
 }
 
 NOT_YET = "check not built yet in this round (specification and harness planned in DESIGN.md section 6); not claimed"
